@@ -207,6 +207,10 @@ func Catalogue() []Prog {
 	// failing programs
 	add("err-unknown-filter", S, `<p>{{ title | nosuchfilter }}</p>`, nil, nil, true)
 	add("err-filter-error", S, `<p>ok {{ title | upper }}</p><p>{{ bad | failif }}</p>`, nil, map[string]TV{"bad": tvS("boom")}, true)
+	// component shorthand tags (resolved on engines set up with WithComponents / RegisterComponent; plain custom elements elsewhere)
+	add("shorthand-components", F, `<cat-panel t="P"><cat-chip :n="n"></cat-chip><cat-chip n="two"></cat-chip></cat-panel><div v-for="lk_it in items"><cat-chip :n="lk_it.name"></cat-chip></div><cat-chip n="out"></cat-chip>`, map[string]string{
+		"/components/CatPanel.vuego": `<section data-c="panel" :data-t="t"><slot></slot><cat-chip n="own"></cat-chip></section>`,
+		"/components/CatChip.vuego":  `<span data-c="chip">{{ n }}</span>`}, nil, false)
 	add("err-missing-include", F, `<p>before</p><template include="@D/nope.vuego"></template>`, nil, nil, true)
 	add("err-required", F, `<template include="@D/c.vuego"></template>`, map[string]string{"c.vuego": `<template :required="must"><b>{{ must }}</b></template>`}, nil, true)
 	add("err-include-bad-frontmatter", F, `<template include="@D/c.vuego"></template>`, map[string]string{"c.vuego": "---\n: : bad: [yaml\n---\n<p>x</p>"}, nil, true)
@@ -283,6 +287,14 @@ func newCatEngine(fsys fs.FS) *catEngine {
 	vue := vuego.NewVue(fsys).Funcs(catFuncs())
 	vue.RegisterNodeProcessor(vuego.NewLessProcessor(fsys))
 	return &catEngine{fsys: fsys, base: vuego.NewFS(fsys, vuego.WithFuncs(catFuncs()), vuego.WithLessProcessor()), vue: vue}
+}
+
+// newCatEnginePlain: engines without any node processor, with component shorthand tags
+// (WithComponents on the template side, RegisterComponent on the Vue side).
+func newCatEnginePlain(fsys fs.FS) *catEngine {
+	vue := vuego.NewVue(fsys).Funcs(catFuncs())
+	vue.RegisterComponent("cat-panel", "components/CatPanel.vuego").RegisterComponent("cat-chip", "components/CatChip.vuego")
+	return &catEngine{fsys: fsys, base: vuego.NewFS(fsys, vuego.WithFuncs(catFuncs()), vuego.WithComponents()), vue: vue}
 }
 
 var catEntryPoints = []string{"load-render", "renderfile", "vue-render", "vue-fragment"}
